@@ -184,3 +184,12 @@ impl<S: BuildHasher> MapOperationQueue<S> {
         }
     }
 }
+
+#[cfg(feature = "verif_hooks")]
+impl<S> MapOperationQueue<S> {
+    /// Preset the epoch of the head of an empty queue (to reach epoch wrap-around in bounded time).
+    pub fn verif_set_head_epoch(&mut self, epoch: usize) {
+        assert!(self.queue.is_empty() && self.epoch_map.is_empty());
+        self.head_epoch = epoch;
+    }
+}
